@@ -7,7 +7,7 @@ from vlib import coq
 
 PROP = "C17"
 LEVEL = "proof"
-COQ_TARGETS = ["C17/Model.vo", "C17/Alg.vo", "C17/Sched.vo", "C17/PhaseEnd.vo", "C17/Main.vo", "C17/Float.vo"]
+COQ_TARGETS = ["C17/Model.vo", "C17/Alg.vo", "C17/Sched.vo", "C17/PhaseEnd.vo", "C17/Main.vo", "C17/Unitary.vo", "C17/Float.vo"]
 COQ_DIRS = ["C17"]
 PROPERTIES_FILE = "Properties/C17.v"
 ALLOWED_AXIOMS = set()
@@ -33,14 +33,15 @@ ASSUMPTIONS = [
     "an invalid input that is accepted counts as a violation only if the returned factors are then wrong",
     "inputs on the boundary of a routine's own tolerance may be accepted or rejected",
 ]
-MANIFEST_TEXT = ("proof (partial): for every size n, ring of scalars and parameter list, Coq proves that the nulling order of "
+MANIFEST_TEXT = ("proof: for every size n, commutative ring of scalars and parameter list, Coq proves that the nulling order of "
                  "rectangular/rectangular_MZ/triangular zeroes the strict lower triangle given blocks that null their targets, that every "
-                 "branch of nullTi/nullT/nullMZi/nullMZ yields such a block, that T/Ti/Mach-Zehnder blocks are unitary and applying the "
-                 "inverse blocks in reverse restores the input, and that rectangular_phase_end/rectangular_symmetric preserve the product "
-                 "(C17_*_partial, C17_phase_end, C17_symmetric_phase_end; closed under the global context). Not proved: diagonal "
-                 "remainder/unit modulus (C17_full_statement), float error, and all LAPACK-based routines (takagi, williamson, "
-                 "bloch_messiah, compact meshes, sun_compact, graph embeddings), which are checked per output by a randomized search over "
-                 "degenerate / exact-zero / permutation-like / boundary / invalid inputs.")
+                 "branch of nullTi/nullT/nullMZi/nullMZ yields such a block, that T/Ti/Mach-Zehnder blocks are unitary, that applying the "
+                 "inverse blocks in reverse restores the input, that for unitary input the remainder is diagonal with unit-modulus "
+                 "entries (C17_rectangular_full, C17_triangular_full, C17_rectangular_MZ_full), and that rectangular_phase_end / "
+                 "rectangular_symmetric preserve the product (C17_phase_end, C17_symmetric_phase_end); all closed under the global "
+                 "context.  Not proved: floating-point error, and all LAPACK-based routines (takagi, williamson, bloch_messiah, compact "
+                 "meshes, sun_compact, graph embeddings), which are checked per output by a randomized search over degenerate / "
+                 "exact-zero / permutation-like / boundary / invalid inputs.")
 
 TWO_PI = 2 * math.pi
 
@@ -482,27 +483,28 @@ def check_valid(routine, A, opts, res):
     raise KeyError(routine)
 
 
-def sun_tail_norm(U):
-    """Smallest tail norm sqrt(sum_{k>=i} |u_k|^2), 1 <= i <= m-2, of the first column of U and of the successive
-    (m-1)-dimensional blocks left after rotating that column onto e_0 (computed here with stable Givens rotations).
-    sun_compact's staircase divides by exactly this quantity; 0 means a 0/0."""
+def sun_near_unit_column(U):
+    """True iff the first column of U, or of one of the successive blocks left after rotating that column onto e_0
+    (stable Givens rotations, computed here), has an entry whose modulus is within 3e-12 of 1 while the rest of the
+    column is still larger than 5e-9.  sun_compact decides its 'single non-zero entry' special cases with
+    |x| ~ 1 at rtol = atol = 1e-12 and then drops the rest of the column, which can be as large as sqrt(2 * 2e-12) = 2e-6."""
     V = np.array(U, dtype=complex)
-    k = 1.0
-    while V.shape[0] > 3:
+    while V.shape[0] >= 2:
         m = V.shape[0]
-        u = V[:, 0]
-        if not np.isclose(np.abs(u).max(), 1, rtol=0, atol=1e-12):   # single non-zero entry: handled by a separate branch
-            tails = np.sqrt(np.cumsum((np.abs(u) ** 2)[::-1])[::-1])
-            k = min(k, float(tails[1:m - 1].min()))
+        mod = np.abs(V[:, 0])
+        k = int(mod.argmax())
+        rest = math.sqrt(float(np.sum(np.delete(mod, k) ** 2)))
+        if 1 - mod[k] <= 3e-12 and rest > 5e-9:
+            return True
         for i in range(m - 1, 0, -1):
             a, b = V[i - 1, 0], V[i, 0]
             r = math.hypot(abs(a), abs(b))
-            if abs(b) < 1e-12:      # nothing to rotate away (the code's special-case branches ignore such noise too)
+            if abs(b) < 1e-12:
                 continue
             G = np.array([[np.conj(a), np.conj(b)], [-b, a]]) / r
             V[i - 1:i + 1, :] = G @ V[i - 1:i + 1, :]
         V = V[1:, 1:]
-    return k
+    return False
 
 
 def _rounding_split(vals, decimals, rounded=False):
@@ -524,21 +526,11 @@ def input_class(routine, A, kind, res=None):
     A = np.asarray(A)
     square = A.ndim == 2 and A.shape[0] == A.shape[1] and _finite(A)
     if routine == "sun_compact" and kind not in UNITARY_BAD and kind != "too-small" and square:
-        if np.isrealobj(A) and np.linalg.det(A) < 0:
-            return "real-negative-det"
-        if A.shape[0] >= 4:
-            tn = sun_tail_norm(A)
-            if tn < 1e-9:
-                return "zero-tail-column"
-            if tn < 1.5e-2:
-                return "small-tail-column"
+        if A.shape[0] >= 3 and sun_near_unit_column(A):
+            return "near-unit-column"
         mod = np.abs(A)
-        if ((mod > 1e-12) & (mod < 1.5e-2)).any():
-            return "tiny-entries"
-        if A.shape[0] >= 7:
-            return "size-ge-7"
-        if not (A == 0).any():
-            return "dense-numerical"
+        if ((mod > 1e-9) & (mod < 2e-5)).any():
+            return "tiny-entry"      # _su2_parameters treats |U[0,1]| within 1e-10 of 1 as 1 and drops |U[0,0]| < 1.4e-5
     if routine in SYMM_ROUTINES and square and res is not None:
         # singular values returned by takagi's complex branch are rounded to 13 decimals and were grouped by that rounding
         try:
@@ -1299,8 +1291,7 @@ def search(ctx):
                 sun_dense[2] = sun_dense[2] or (case, fail)
         if fail:
             _report(ctx, case, fail)
-    # sporadic numerical failures of sun_compact on dense matrices are a recorded finding (rate < 1e-3 for n <= 6);
-    # anything systematic is not
+    # guard against a recorded sun_compact finding ever masking a systematic failure on dense matrices
     if sun_dense[0] >= 20 and sun_dense[1] > max(2, 0.03 * sun_dense[0]):
         case, fail = sun_dense[2]
         ctx.counterexample("sun_compact:systematic-failure:dense-small", "sun_compact fails on %d of %d dense unitaries of size <= 6 (%s)" % (sun_dense[1], sun_dense[0], fail[1]), case)
